@@ -1336,12 +1336,12 @@ theorem readK_api (fuel : Nat) : ∀ (b : BodyReader) (k : Nat) (acc : Bytes),
         refine ⟨[.read (k - acc.length)], ?_⟩
         simp [applyBodyOps, applyBodyOp, heq]
 
-theorem harness_handlers_api : ∀ h ∈ [hEcho, hNoread, hReadK, hEarly, hSwallow, hClose, hErr, hBigr, hP, hFallback, hCloseEmpty, hCloser, hSilent, hContinue],
+theorem harness_handlers_api : ∀ h ∈ [hEcho, hNoread, hReadK, hEarly, hSwallow, hClose, hErr, hBigr, hP, hFallback, hCloseEmpty, hCloser, hSilent, hContinue, hCloseRep],
     Handler.UsesBodyViaApi h := by
   intro h hm
   simp only [List.mem_cons, List.mem_nil_iff, or_false] at hm
   intro req ps b
-  rcases hm with rfl | rfl | rfl | rfl | rfl | rfl | rfl | rfl | rfl | rfl | rfl | rfl | rfl | rfl
+  rcases hm with rfl | rfl | rfl | rfl | rfl | rfl | rfl | rfl | rfl | rfl | rfl | rfl | rfl | rfl | rfl
   · obtain ⟨ops, hops⟩ := readAll_api b
     refine ⟨ops, ?_⟩; rw [← hops]; unfold hEcho; split <;> (rename_i heq; rw [heq])
   · exact ⟨[], rfl⟩
@@ -1361,14 +1361,15 @@ theorem harness_handlers_api : ∀ h ∈ [hEcho, hNoread, hReadK, hEarly, hSwall
   · exact ⟨[], rfl⟩
   · obtain ⟨ops, hops⟩ := readAll_api b
     refine ⟨ops, ?_⟩; rw [← hops]; unfold hContinue; split <;> (rename_i heq; rw [heq])
+  · exact ⟨[], rfl⟩
 
 theorem harnessCfg_api (max : Nat) : (harnessCfg max).HandlersUseApi := by
   refine ⟨?_, harness_handlers_api hFallback (by simp)⟩
   intro i
   show Handler.UsesBodyViaApi ([hEcho, hNoread, hReadK, hEarly, hSwallow, hClose, hErr, hBigr, hP, hErr, hCloseEmpty, hCloser, hSilent, hErr,
-    hEcho, hEcho, hEcho, hContinue].getD i hFallback)
+    hEcho, hEcho, hEcho, hContinue, hCloseRep].getD i hFallback)
   apply harness_handlers_api
-  rcases i with _ | _ | _ | _ | _ | _ | _ | _ | _ | _ | _ | _ | _ | _ | _ | _ | _ | _ | i <;> simp [List.getD]
+  rcases i with _ | _ | _ | _ | _ | _ | _ | _ | _ | _ | _ | _ | _ | _ | _ | _ | _ | _ | _ | i <;> simp [List.getD]
 
 end Harness
 
